@@ -238,6 +238,44 @@ func VerifC12Subnet() {
 	verifrt.Cover("members")
 }
 
+// VerifC12SubnetMapped4: the usual shape of an IPv4 *net.IPNet built by
+// package net helpers: a 16-byte IPv4-mapped IP with a 4-byte mask.  The
+// converted address is the 4-byte form, so the mask is "as long as the
+// converted address" for IPNetToPrefixNoMapped and for IPNetToPrefix(IPv4).
+func VerifC12SubnetMapped4() {
+	noMapped := verifrt.Bool2()
+	ip := make(net.IP, 16)
+	ip[10], ip[11] = 0xff, 0xff
+	copy(ip[12:], verifrt.Bytes(4))
+	mask := net.IPMask(verifrt.Bytes(4))
+	subnet := &net.IPNet{IP: append(net.IP(nil), ip...), Mask: append(net.IPMask(nil), mask...)}
+	ones, bits := mask.Size()
+	var p netip.Prefix
+	var err error
+	if noMapped {
+		p, err = IPNetToPrefixNoMapped(subnet)
+	} else {
+		p, err = IPNetToPrefix(subnet, AddrFamilyIPv4)
+	}
+	verifrt.ObserveBool("ok", err == nil)
+	if bits == 0 {
+		verifrt.Assert(err != nil, "a non-contiguous mask was accepted (widened)")
+		verifrt.Cover("bad-mask")
+
+		return
+	}
+	verifrt.Assert(err == nil, "an IPv4 subnet in 16-byte form with a canonical 4-byte mask was rejected")
+	if err != nil {
+		return
+	}
+	verifrt.Assert(p.Addr().Is4(), "the prefix of an IPv4 subnet is not of the IPv4 family")
+	verifrt.Assert(p.Bits() == ones, "prefix length differs from the number of leading ones of the mask")
+	x := net.IP(verifrt.Bytes(4))
+	ref := &net.IPNet{IP: ip, Mask: mask}
+	verifrt.Assert(p.Contains(netip.AddrFrom4([4]byte(x))) == ref.Contains(x), "the prefix and the IPNet disagree on an address")
+	verifrt.Cover("members")
+}
+
 func c12Addr() netip.Addr {
 	switch verifrt.Choice(4) {
 	case 0:
